@@ -106,6 +106,12 @@ func callGFunction(L *LState, tailcall bool) bool {
 	frame := L.currentFrame
 	gfnret := frame.Fn.GFunction(L)
 	if gfnret < 0 {
+		if L.nccalls > 0 && L.Parent != nil {
+			// the frames between this thread's body and the yield include a Go
+			// function (pcall, a metamethod or iterator call, a library callback):
+			// it cannot be suspended
+			L.RaiseError("attempt to yield across metamethod/C-call boundary")
+		}
 		if tailcall {
 			// a yield in tail position keeps the caller's frame: the values passed to the next
 			// resume become the results of this call and the RETURN that follows OP_TAILCALL
